@@ -1343,6 +1343,30 @@ fn scenarios(prop: &str, thorough: bool) -> Vec<Scen> {
         }
         o => panic!("probstate does not serve {}", o),
     }
+    // shape grid: sample counts x right-hand-side counts whose product passes typical byte-sized block limits (a block of
+    // columns sized by N * size_of::<T>() is a different number of columns for every N and for f32 / f64)
+    if matches!(prop, "C07" | "C02" | "C01" | "C03" | "C11") {
+        let pool = [YCol::Noisy, YCol::Off, YCol::OnModel, YCol::OnPlusOff, YCol::TwiceOn];
+        for n in [64usize, 128, 257, 512, 1025] {
+            for ncols in [5usize, 7, 20, 33] {
+                for f32_ in [false, true] {
+                    for par in [false, true] {
+                        if prop == "C11" && !par {
+                            continue;
+                        }
+                        if !thorough && ((n / 64 + ncols + f32_ as usize + par as usize) % 3 != 0) {
+                            continue;
+                        }
+                        let ycols: Vec<YCol> = (0..ncols).map(|i| pool[(i * 2) % 5].clone()).collect();
+                        let mut s = mk(&Family::Exp2Off, n, Prov::Hand, f32_, par, Api::Mrhs, ycols, if ncols % 2 == 0 { WKind::Ramp } else { WKind::None }, EpsKind::Default);
+                        s.alphas.truncate(2);
+                        s.depth = 1;
+                        v.push(s);
+                    }
+                }
+            }
+        }
+    }
     v
 }
 
